@@ -98,6 +98,7 @@ def insert : Nat := 226
 def raw : Nat := 227
 def offset : Nat := 228
 -- free functions / associated functions
+def Iter.new : Nat := 314
 def SyntaxNode.new_child : Nat := 312
 def SyntaxElement.new : Nat := 313
 def try_write : Nat := 252
@@ -145,6 +146,8 @@ def resolve : Nat := 238
 def deref : Nat := 119
 def as_child : Nat := 253
 def next : Nat := 254
+def get_or_add_element : Nat := 256
+def get_or_add_node : Nat := 257
 def children : Nat := 255
 def data : Nat := 239
 def fetch_add : Nat := 241
@@ -169,6 +172,7 @@ def into_owned : Nat := 234
 def field.text : Nat := 613
 def field.kind : Nat := 614
 def field.text_len : Nat := 615
+def field.inner : Nat := 619
 def field.ref_count : Nat := 616
 def field.data : Nat := 617
 def field.child_locks : Nat := 618
